@@ -81,7 +81,9 @@ var c12Ext = [][]string{
 }
 
 // quoted-string contents that try to hide separators, escapes and the extension name
-var c12Quoted = []string{`a`, `a\\\\`, `\\"`, `, permessage-deflate`, `, permessage-deflate; z=`, `; permessage-deflate`, `permessage-deflate`, ``, `a\\\\\\"`, `\\\\\\\\`}
+var c12Quoted = []string{`a`, `a\\\\`, `\\"`, `, permessage-deflate`, `, permessage-deflate; z=`, `; permessage-deflate`, `permessage-deflate`, ``, `a\\\\\\"`, `\\\\\\\\`,
+	// an escaped quote does not end the string: what follows is still inside it
+	`\"`, `a\", permessage-deflate, b; w=\"c`, `\\\", permessage-deflate; w=\"`}
 var c12QuotedTail = []string{``, `; z="`, `, permessage-deflate`, `; z="\\`, `, baz`}
 
 var c12ServerProtos = [][]string{nil, {}, {"chat"}, {"superchat", "chat"}, {"other"}}
